@@ -38,8 +38,8 @@ class BaseCase:
     pid = ''
     level = 'exploration'
     ops_key: str | None = 'ops'
-    n_cases = {'quick': 400, 'thorough': 6000}
-    wall_cap = {'quick': 240.0, 'thorough': 3000.0}
+    n_cases = {'quick': 600, 'thorough': 8000}
+    wall_cap = {'quick': 300.0, 'thorough': 3600.0}
     chunk = {'quick': 8, 'thorough': 25}
     chunk_timeout = 900.0
     minimise_budget = {'quick': 60.0, 'thorough': 180.0}
@@ -445,7 +445,7 @@ class C02(TrainCase):
     pid = 'C02'
     gen_kw = dict(restarts=0.0, extras=0.2, scheduler=0.1, max_ops=5,
                   min_world=2)
-    n_cases = {'quick': 250, 'thorough': 4000}
+    n_cases = {'quick': 350, 'thorough': 5000}
     expected_probes = ['cross_rank_comparisons', 'placement_comparisons',
                        'single_process_comparisons']
     rule = ('one drawn (model, data, history, hyper-parameters) is run '
@@ -547,7 +547,7 @@ class C09(TrainCase):
     pid = 'C09'
     level = 'fault_enumeration'
     gen_kw = dict(restarts=0.9, extras=0.5, scheduler=0.2, max_ops=10)
-    n_cases = {'quick': 300, 'thorough': 4000}
+    n_cases = {'quick': 400, 'thorough': 5000}
     expected_probes = ['restarts', 'bad_state_load_tried',
                        'resume_comparisons', 'resume_outside_precondition',
                        'crash_mid_operation', 'checkpoint_saved']
